@@ -22,6 +22,8 @@ CONSTANT IBug   \* "none" | design mutants, the first four being the code before
                 \*   "step_count" irregular: step = (max - min) div count instead of count - 1
                 \*   "trust_segyio" segyio's inferred cube is not checked against the trace numbers (the code before repair 8fc901d)
                 \*   "ends_only"  only the first and last trace of every inferred line are checked
+                \*   "contig_hdr" the headers of one inline are read as a contiguous run of file traces whatever the source's
+                \*                sorting (the code before repair 5a8a193: right only for inline-sorted sources)
 
 SetMin(S) == CHOOSE a \in S : \A b \in S : a <= b
 SetMax(S) == CHOOSE a \in S : \A b \in S : a >= b
@@ -100,18 +102,21 @@ IrregularOK(src, tr) ==
               Placed(src)[gi][gx] = RefOf(src, tr.il[gi], tr.xl[gx])
 
 (***************************************************************************)
-(* C11: ordinal window on a regular NI x NX source (traces in raster       *)
-(* order, ordinal of (i, x) = i * NX + x + 1).  w = <<a, b, c, d>> with    *)
-(* None = -1 for an absent bound.                                          *)
+(* C11: ordinal window on a regular NI x NX source.  The source's traces   *)
+(* are in file order, which is inline-major (srt = "il": ordinal of (i, x) *)
+(* = i * NX + x + 1) or crossline-major (srt = "xl": x * NI + i + 1).      *)
+(* w = <<a, b, c, d>> with None = -1 for an absent bound; the whole file   *)
+(* is the window <<0, NI, 0, NX>>.                                         *)
 (***************************************************************************)
 None == -1
 WindowApplies(w) == IF IBug = "truthy" THEN \A k \in 1..4 : w[k] # None /\ w[k] # 0
                     ELSE \A k \in 1..4 : w[k] # None
 Eff(NI, NX, w) == IF WindowApplies(w) THEN w ELSE <<0, NI, 0, NX>>
+FileOrd(NI, NX, srt, i, x) == IF srt = "xl" THEN x * NI + i + 1 ELSE i * NX + x + 1
 
 \* the file the converter writes for window w: extents, origin ordinals, data provenance, and for ONE stored header word the
 \* cells of its footer array (provenance = source ordinal whose header value sits there, 0 = untouched zero)
-Windowed(NI, NX, w) ==
+WindowedS(NI, NX, w, srt) ==
     LET e == Eff(NI, NX, w)
         a == e[1]  b == e[2]  c == e[3]  d == e[4]
         ni == b - a
@@ -120,16 +125,19 @@ Windowed(NI, NX, w) ==
         \* capture: for output inline p (0-based) the code reads the headers of source row r and stores them at q + (r - a) * nx
         row(p) == IF IBug = "hdr_row" THEN p ELSE a + p
         store(p, q) == LET k == q + (row(p) - a) * nx IN IF k < 0 THEN k + len ELSE k          \* numpy negative index
+        \* the q-th header of that row: a run of nx file traces from start_trace (inline-sorted), every NI-th trace (crossline-sorted)
+        hdr(p, q) == IF srt = "xl" /\ IBug # "contig_hdr" THEN FileOrd(NI, NX, srt, row(p), c + q) ELSE row(p) * NX + c + q + 1
         cells == [k \in 0..(len - 1) |->
                     LET S == {<<p, q>> \in (0..(ni - 1)) \X (0..(nx - 1)) : store(p, q) = k}
                     IN  IF S = {} THEN 0
                         ELSE LET pq == CHOOSE pq \in S : \A o \in S : o[1] <= pq[1]       \* the last write wins
-                             IN  row(pq[1]) * NX + c + pq[2] + 1]
+                             IN  hdr(pq[1], pq[2])]
     IN  [ni |-> ni, nx |-> nx,
          il_origin |-> IF IBug = "src_origin" THEN 0 ELSE a, xl_origin |-> IF IBug = "src_origin" THEN 0 ELSE c,
          tracecount |-> ni * nx,
-         data |-> [p \in 0..(ni - 1) |-> [q \in 0..(nx - 1) |-> (a + p) * NX + c + q + 1]],
+         data |-> [p \in 0..(ni - 1) |-> [q \in 0..(nx - 1) |-> FileOrd(NI, NX, srt, a + p, c + q)]],     \* segyio's iline accessor
          arr_len |-> len, cells |-> cells]
+Windowed(NI, NX, w) == WindowedS(NI, NX, w, "il")
 
 \* footer as bytes: array k of the writer occupies cells [k * StrideW, k * StrideW + len); the reader fetches ni*nx cells from
 \* k * StrideR.  Pad = cells per padding unit (128 in the code: 512 bytes)
@@ -142,9 +150,10 @@ ReadCell(W, pad, k, j) ==       \* value the reader sees for array k, grid cell 
         wj == off % sw
     IN  [arr |-> wk, cell |-> IF wj < W.arr_len THEN W.cells[wj] ELSE 0]
 
-\* converting the windowed sub-cube alone
-WindowOK(NI, NX, w, pad, narr) ==
-    LET W == Windowed(NI, NX, w)
+\* converting the windowed sub-cube alone: cell (p, q) of the result holds the samples AND the header of source position
+\* (a + p, c + q), wherever that trace sits in the source file
+WindowOKS(NI, NX, w, pad, narr, srt) ==
+    LET W == WindowedS(NI, NX, w, srt)
         e == <<IF w[1] = None THEN 0 ELSE w[1], IF w[2] = None THEN NI ELSE w[2], IF w[3] = None THEN 0 ELSE w[3], IF w[4] = None THEN NX ELSE w[4]>>
         all == \A k \in 1..4 : w[k] # None
         a == IF all THEN e[1] ELSE 0
@@ -153,6 +162,7 @@ WindowOK(NI, NX, w, pad, narr) ==
         d == IF all THEN e[4] ELSE NX
     IN  /\ W.ni = b - a /\ W.nx = d - c /\ W.il_origin = a /\ W.xl_origin = c /\ W.tracecount = (b - a) * (d - c)
         /\ \A p \in 0..(b - a - 1), q \in 0..(d - c - 1) :
-              /\ W.data[p][q] = (a + p) * NX + c + q + 1
-              /\ \A k \in 0..(narr - 1) : ReadCell(W, pad, k, p * (d - c) + q) = [arr |-> k, cell |-> (a + p) * NX + c + q + 1]
+              /\ W.data[p][q] = FileOrd(NI, NX, srt, a + p, c + q)
+              /\ \A k \in 0..(narr - 1) : ReadCell(W, pad, k, p * (d - c) + q) = [arr |-> k, cell |-> FileOrd(NI, NX, srt, a + p, c + q)]
+WindowOK(NI, NX, w, pad, narr) == WindowOKS(NI, NX, w, pad, narr, "il")
 =============================================================================
